@@ -21,11 +21,12 @@ Fixpoint d2w (w : list Z) (p q : pt) : Z :=
   end.
 
 (* ---- candidates of one source: destinations within range, sorted by
-   distance (stable: ties keep destination order), then the null link ---- *)
+   distance (stable like list.sort: among equal distances the destination order is kept; fold_right places
+   the later candidates first, so a candidate goes BEFORE the already placed ones of equal cost), then the null link ---- *)
 Fixpoint insert_c (x : cand) (l : list cand) : list cand :=
   match l with
   | [] => [x]
-  | y :: l' => if snd y <=? snd x then y :: insert_c x l' else x :: y :: l'
+  | y :: l' => if snd y <? snd x then y :: insert_c x l' else x :: y :: l'
   end.
 Definition sort_c (l : list cand) : list cand := fold_right insert_c [] l.
 
